@@ -8,9 +8,9 @@ JUDGE = """SPECIFICATION Spec
 INVARIANT Verdict
 CHECK_DEADLOCK FALSE
 """
-ALPHABET = ["a", "1", "'", '"', "(", ")", "[", "]", "{", "}", ",", ":", "=", ";", " ", "\\"]
+ALPHABET = ["a", "1", "'", '"', "(", ")", "[", "]", "{", "}", ",", ":", "=", ";", " ", "\\", "_", "-"]
 CONTEXTS = ["RETURN=%s", "RETURN=nop(%s)", "RETURN=[%s]", "RETURN={%s}", "RETURN=concat([1],%s)", "x=1;%s", "%s"]
-INSERT = ["(", ")", "[", "]", "{", "}", "'", '"', ",", ":", "=", ";", " ", "x", "1"]
+INSERT = ["(", ")", "[", "]", "{", "}", "'", '"', ",", ":", "=", ";", " ", "x", "1", "_", "-", ".", "\\", "\n", "#", "+"]
 
 
 def chunked(seq, n):
@@ -28,6 +28,34 @@ def corruptions(text):
     for i in range(len(text) + 1):
         for c in INSERT:
             out.append(text[:i] + c + text[i:])                   # insert
+    return out
+
+
+def _stale_worker(kind):
+    """state left by earlier queries: a bucket is queried while it exists, deleted, and queried again in the same process -
+    the same text now names an unknown bucket and must be refused with a query-function error"""
+    import os
+    import shutil
+    from .. import store
+    root = common.scratch_dir("c17s_%d_%s" % (os.getpid(), kind))
+    ds = store.mk_datastore(kind, root)
+    out = []
+    try:
+        rec = query.Recorder({})
+        try:
+            for i, text in enumerate(["RETURN=query_bucket('c17-tmp-%d');", "RETURN=query_bucket_eventcount('c17-tmp-%d');", "x=flood(query_bucket('c17-tmp-%d'));RETURN=x;"]):
+                bid = "c17-tmp-%d" % i
+                text = text % i
+                ds.create_bucket(bid, "t", "c", "h")
+                first = query.run_text(ds, rec, text)
+                ds.delete_bucket(bid)
+                again = query.run_text(ds, rec, text)
+                out.append(dict(kind="fault", fault="unknown-bucket", out=again["out"], exc=again["exc"], text="%s  [after the bucket was queried (%s) and deleted; %s]" % (text, first["out"], kind)))
+        finally:
+            rec.close()
+    finally:
+        store.close_datastore(kind, ds)
+        shutil.rmtree(root, ignore_errors=True)
     return out
 
 
@@ -61,6 +89,9 @@ def run(prop, tier, seed, replay=None):
     for i, (skel, texts) in enumerate(items):
         r = runs[i][0]
         records.append(dict(skel, out=r["out"], exc=r["exc"], text=texts[0]))
+    if replay is None:
+        for part in common.pmap(_stale_worker, ["memory", "sqlite", "peewee"]):
+            records += part
     traces = [[{k: v for k, v in r.items() if k != "text"} for r in part] for part in chunked(records, 2000)]
     ncan = 0
     if replay is None:
